@@ -11,6 +11,7 @@ In-process driver of the real data engine (imported from /repo's current working
                 ["ret", value]  / ["finish"]
 * `PyReplica`: an independent doc-action interpreter (what Node/SQLite does with `stored`).
 """
+import copy
 import json
 import logging
 import math
@@ -257,7 +258,8 @@ class Doc(object):
     steps = [] if record else None
     REC.active = steps
     try:
-      uas = [useractions.from_repr(ua) for ua in user_actions]
+      # the engine mutates its input in place (e.g. AddTable inserts manualSort): apply a copy
+      uas = [useractions.from_repr(ua) for ua in copy.deepcopy(user_actions)]
       ag = self.engine.apply_user_actions(uas)
       rep = ag.get_repr()
       res.ok = True
@@ -286,8 +288,9 @@ class Doc(object):
   def table_ids(self):
     return sorted(self.engine.tables.keys())
 
-  def snapshot(self, norm=True, tables=None):
-    """{table: {"ids": [...], "cols": {col: [tokens]}}} for every table, metadata included."""
+  def snapshot(self, norm=False, tables=None):
+    """{table: {"ids": [...], "cols": {col: [tokens]}}} for every table, metadata included.
+    Tokens are exact (int/float kept apart); comparisons normalise with ntok."""
     out = {}
     f = ntok if norm else (lambda x: x)
     for tid in (tables or self.table_ids()):
@@ -323,6 +326,22 @@ class Doc(object):
     return [dict([("id", r)] + [(c, cols[c][i]) for c in cols]) for i, r in enumerate(td.row_ids)]
 
 
+def numeric_drift(a, b):
+  """Cells (table, row, col) whose exact tokens differ only in int-vs-float (equal encodings)."""
+  out = []
+  for t in a:
+    if t not in b or a[t]["ids"] != b[t]["ids"]:
+      continue
+    for c, va in a[t]["cols"].items():
+      vb = b[t]["cols"].get(c)
+      if vb is None or va == vb:
+        continue
+      for i, r in enumerate(a[t]["ids"]):
+        if va[i] != vb[i] and ntok(va[i]) == ntok(vb[i]):
+          out.append((t, r, c, va[i], vb[i]))
+  return out
+
+
 def diff_snapshots(a, b, limit=6):
   """List of human-readable differences between two snapshots."""
   out = []
@@ -342,7 +361,7 @@ def diff_snapshots(a, b, limit=6):
         out.append("column %s.%s only in first" % (t, c)); continue
       if ta["cols"][c] != tb["cols"][c]:
         for i, r in enumerate(ta["ids"]):
-          if ta["cols"][c][i] != tb["cols"][c][i]:
+          if ntok(ta["cols"][c][i]) != ntok(tb["cols"][c][i]):
             out.append("cell %s[%s].%s: %r vs %r" % (t, r, c, ta["cols"][c][i], tb["cols"][c][i]))
             break
     if len(out) >= limit:
@@ -352,11 +371,22 @@ def diff_snapshots(a, b, limit=6):
 
 # --------------------------------------------------------------------------- independent replica
 
+TYPE_DEFAULT_TOK = {   # the storage default of each Grist type (what SQLite / a client fills in)
+  "Any": None, "Attachments": None, "Blob": None, "Bool": False, "Choice": "s", "ChoiceList": None,
+  "Date": None, "DateTime": None, "Id": "i0", "Int": "i0", "ManualSortPos": "finf", "Numeric": "i0",
+  "PositionNumber": "finf", "Ref": "i0", "RefList": None, "Text": "s",
+}
+
+def type_default(typ):
+  return TYPE_DEFAULT_TOK.get((typ or "Any").split(":")[0], None)
+
+
 class PyReplica(object):
   """Independent doc-action interpreter over tokens: what a client / SQLite does with `stored`.
-  Lenient like Node: unknown columns in record actions are an error we report (ghost data)."""
+  A new row's omitted cells, and a new column's cells, get the column type's storage default at
+  that moment.  Unknown tables/columns/rows in record actions are reported (ghost data)."""
   def __init__(self):
-    self.tables = {}    # tid -> {"cols": {cid: {row: tok}}, "rows": set, "info": {cid: colinfo}}
+    self.tables = {}    # tid -> {"cols": {cid: {row: tok}}, "rows": set, "types": {cid: type}}
     self.problems = []
 
   def _t(self, tid, act):
@@ -372,7 +402,8 @@ class PyReplica(object):
   def _AddTable(self, tid, cols):
     if tid in self.tables:
       self.problems.append("AddTable existing %s" % tid)
-    self.tables[tid] = {"cols": {c["id"]: {} for c in cols}, "rows": set()}
+    self.tables[tid] = {"cols": {c["id"]: {} for c in cols}, "rows": set(),
+                        "types": {c["id"]: c.get("type") for c in cols}}
 
   def _RemoveTable(self, tid):
     if self._t(tid, "RemoveTable") is not None:
@@ -389,7 +420,9 @@ class PyReplica(object):
     if t is not None:
       if cid in t["cols"]:
         self.problems.append("AddColumn existing %s.%s" % (tid, cid))
-      t["cols"][cid] = {}
+      t["types"][cid] = info.get("type")
+      d = type_default(info.get("type"))
+      t["cols"][cid] = {r: d for r in t["rows"]}
 
   def _RemoveColumn(self, tid, cid):
     t = self._t(tid, "RemoveColumn")
@@ -397,6 +430,7 @@ class PyReplica(object):
       if cid not in t["cols"]:
         self.problems.append("RemoveColumn missing %s.%s" % (tid, cid))
       t["cols"].pop(cid, None)
+      t["types"].pop(cid, None)
 
   def _RenameColumn(self, tid, old, new):
     t = self._t(tid, "RenameColumn")
@@ -406,11 +440,14 @@ class PyReplica(object):
       if new in t["cols"]:
         self.problems.append("RenameColumn onto existing %s.%s" % (tid, new))
       t["cols"][new] = t["cols"].pop(old)
+      t["types"][new] = t["types"].pop(old, None)
 
   def _ModifyColumn(self, tid, cid, info):
     t = self._t(tid, "ModifyColumn")
     if t is not None and cid not in t["cols"]:
       self.problems.append("ModifyColumn missing %s.%s" % (tid, cid))
+    elif t is not None and "type" in info:
+      t["types"][cid] = info["type"]
 
   def _BulkAddRecord(self, tid, rows, cols):
     t = self._t(tid, "AddRecord")
@@ -424,6 +461,11 @@ class PyReplica(object):
     if len(set(rows)) != len(rows):
       self.problems.append("AddRecord repeated row id in %s %r" % (tid, rows))
     t["rows"].update(rows)
+    for c in t["cols"]:
+      if c not in cols:
+        d = type_default(t["types"].get(c))
+        for r in rows:
+          t["cols"][c][r] = d
     for c, vals in cols.items():
       if c not in t["cols"]:
         self.problems.append("AddRecord unknown column %s.%s" % (tid, c)); continue
@@ -455,8 +497,10 @@ class PyReplica(object):
     if t is None:
       return
     for r in rows:
+      # removing an absent row is a no-op for every interpreter (SQL DELETE, TableDataSet,
+      # DocActions.BulkRemoveRecord "ignore records that don't exist"): counted, not a problem
       if r not in t["rows"]:
-        self.problems.append("RemoveRecord missing row %s[%s]" % (tid, r))
+        self.lenient_remove_missing = getattr(self, "lenient_remove_missing", 0) + 1
       t["rows"].discard(r)
       for c in t["cols"].values():
         c.pop(r, None)
@@ -473,9 +517,8 @@ class PyReplica(object):
       t["cols"][c] = {}
     self._BulkAddRecord(tid, rows, cols)
 
-  def compare(self, snap, defaults):
-    """Differences between the replica and an engine snapshot (normalised tokens).
-    `defaults(tid, cid)` gives the token a missing cell reads as (type default)."""
+  def compare(self, snap, defaults=None):
+    """Differences between the replica and an engine snapshot (normalised tokens)."""
     out = []
     for tid in sorted(set(self.tables) | set(snap)):
       if tid not in snap:
@@ -495,15 +538,47 @@ class PyReplica(object):
         col = t["cols"][cid]
         d = None
         for i, r in enumerate(s["ids"]):
-          if r in col:
-            v = ntok(col[r])
-          else:
-            if d is None:
-              d = defaults(tid, cid)
-            v = d
-          if v != s["cols"][cid][i]:
+          v = ntok(col[r]) if r in col else "<no cell>"
+          if v != ntok(s["cols"][cid][i]):
             out.append("cell %s[%s].%s: replica %r engine %r" % (tid, r, cid, v, s["cols"][cid][i]))
             break
       if len(out) > 6:
         break
     return out
+
+
+# --------------------------------------------------------------------------- fresh engine (C05/C07)
+
+def fresh_engine_from(doc, with_formula_values=False, via_marshal=False):
+  """A new Engine loaded with the document's metadata and data columns only (no stored formula
+  results unless with_formula_values), then `Calculate`.  Returns (Doc-like wrapper, calc result)."""
+  import marshal
+  src = doc.engine
+  d2 = Doc.__new__(Doc)
+  install_wrappers()
+  d2.engine = engine_mod.Engine()
+  d2.history = []
+  def conv(td):
+    if not via_marshal:
+      return td
+    # encode as in replies, marshal, decode the way load_table decodes DB values
+    rep = actions.get_action_repr(td)
+    rep = marshal.loads(marshal.dumps(rep))
+    return actions.TableData(rep[1], rep[2], actions.decode_bulk_values(rep[3], _decode_db_value))
+  mt = conv(src.fetch_table('_grist_Tables', formulas=True))
+  mc = conv(src.fetch_table('_grist_Tables_column', formulas=True))
+  d2.engine.load_meta_tables(mt, mc)
+  for tid in sorted(src.tables):
+    if tid in ('_grist_Tables', '_grist_Tables_column'):
+      continue
+    d2.engine.load_table(conv(src.fetch_table(tid, formulas=with_formula_values)))
+  res = d2.apply([["Calculate"]], record=False)
+  return d2, res
+
+
+def _decode_db_value(v):
+  import main as main_mod   # the repo's sandbox entry module
+  f = getattr(main_mod, "_decode_db_value", None)
+  if f is None:
+    raise ImportError("main._decode_db_value not found")
+  return f(v)
